@@ -1,51 +1,106 @@
 """C05-F1: premises of the R-tree offset argument (level sizes, child offsets, level order)."""
 from __future__ import annotations
 import re
-from ..astq import Node, up, strip, strip_cast, walk_no_nested_fn, calls, binding_before
+from ..astq import Node, up, strip, strip_cast, walk_no_nested_fn, calls, binding_before, upn, walk_with_callees
 from ..rules.layout import origin, int_value
 
 W = "bigtools/src/bbi/bbiwrite.rs"
 
 
+def _sqo(t):
+    return re.sub(r"[\s()]", "", t)
+
+
 def ob_tree_offsets(ctx, res):
     co = ctx.ast.fn(W, "calculate_offsets")
-    t = up(co.body)
-    arms = [n for n in walk_no_nested_fn(co.body) if n.k == "arm"]
-    leaf = [a for a in arms if "DataSections" in up(a["pat"])]
-    inner = [a for a in arms if "Nodes(" in up(a["pat"])]
-    if len(leaf) != 1 or len(inner) != 1 or up(strip(leaf[0]["body"])) != "()":
-        res.fail("treeOffsets/calc-shape", co, "calculate_offsets must add nothing for data sections and size up node levels")
-        return
-    ib = up(inner[0]["body"])
-    m = re.search(r"index_offsets\[level - 1\] \+= NODEHEADER_SIZE; for (\w+) in (\w+) \{index_offsets\[level - 1\] \+= NON_LEAFNODE_SIZE; calculate_offsets\(index_offsets,&\1\.children,level - 1\);?\}", ib)
-    if not m:
-        res.fail("treeOffsets/calc", inner[0], "a level's size must be the sum over its nodes of NODEHEADER_SIZE + children * NON_LEAFNODE_SIZE, recursing into level-1; body: %s" % ib[:200])
+    # facts, independent of how the dispatch on the node kind is spelled (match / if let):
+    #   every `index_offsets[level - 1] += X` : X is NODEHEADER_SIZE once per node (outside the child loop) or NON_LEAFNODE_SIZE once per child (inside it);
+    #   the recursion descends into each child's children at level - 1; nothing is added for data sections
+    adds = [n for n in walk_no_nested_fn(co.body) if n.k == "binary" and n["op"] == "+=" and strip(n["l"]).k == "index"]
+    recs = [c for c in walk_no_nested_fn(co.body) if c.k == "call" and up(c["func"]) == "calculate_offsets"]
+    loops = [n for n in walk_no_nested_fn(co.body) if n.k == "for"]
+
+    def inside(n, anc):
+        x = n.parent
+        while x is not None and isinstance(x, Node):
+            if x is anc:
+                return True
+            x = x.parent
+        return False
+    okc = True
+    why = ""
+    hdr = [a_ for a_ in adds if up(strip(a_["r"])) == "NODEHEADER_SIZE"]
+    itm = [a_ for a_ in adds if up(strip(a_["r"])) == "NON_LEAFNODE_SIZE"]
+    if len(adds) != 2 or len(hdr) != 1 or len(itm) != 1 or len(recs) != 1 or len(loops) != 1:
+        okc, why = False, "expected exactly: one `+= NODEHEADER_SIZE` per node, one `+= NON_LEAFNODE_SIZE` per child in one loop over the children, one recursive call"
+    else:
+        idx = {_sqo(up(strip(a_["l"])["index"])) for a_ in adds}
+        lv = [nm for nm, ty in co.params if ty == "usize"]
+        if len(lv) != 1 or idx != {"%s-1" % lv[0]}:
+            okc, why = False, "a node on level L is accounted in slot L - 1; slots used: %s" % sorted(idx)
+        elif inside(hdr[0], loops[0]) or not inside(itm[0], loops[0]) or not inside(recs[0], loops[0]):
+            okc, why = False, "the node header is counted once per node (outside the child loop), the item and the recursion once per child (inside it)"
+        else:
+            ra = [_sqo(up(x)) for x in recs[0]["args"]]
+            child = up(loops[0]["pat"])
+            if ra[1] not in ("&%s.children" % child, "%s.children" % child) or ra[2] != "%s-1" % lv[0]:
+                okc, why = False, "the recursion must descend into each child's children one level down; got %s" % ra
+            else:
+                # the loop runs over the children of a `Nodes(..)` node only
+                it = up(strip(loops[0]["iter"]))
+                disp = None
+                x = loops[0].parent
+                while x is not None and isinstance(x, Node):
+                    if x.k == "arm" and "Nodes(" in up(x["pat"]):
+                        disp = up(x["pat"])
+                    if x.k == "if" and strip(x["cond"]).k == "let_expr" and "Nodes(" in up(strip(x["cond"])["pat"]):
+                        disp = up(strip(x["cond"])["pat"])
+                    x = x.parent
+                if disp is None or it not in disp:
+                    okc, why = False, "the child loop must run over the children bound by the `Nodes(..)` pattern (data sections add nothing)"
+    if not okc:
+        res.fail("treeOffsets/calc", co, "level sizes: %s" % why)
         return
     res.ok(co, "level size = sum over nodes (NODEHEADER_SIZE + children * NON_LEAFNODE_SIZE), recursively per level")
     wt = ctx.ast.fn(W, "write_tree")
     t = up(wt.body)
     opt = [nm for nm, ty in wt.params if "BBIWriteOptions" in ty][0]
-    BS = r"(?:%s\.block_size|rtree_block_size\(%s\))" % (opt, opt)   # the bounded helper is checked by C05-N1
-    f1 = re.search(r"let (\w+): u64 = NODEHEADER_SIZE \+ NON_LEAFNODE_SIZE \* u64::from\(%s\);" % BS, t)
-    f2 = re.search(r"let (\w+): u64 = NODEHEADER_SIZE \+ LEAFNODE_SIZE \* u64::from\(%s\);" % BS, t)
-    if not f1 or not f2:
-        res.fail("treeOffsets/full-sizes", wt, "full node sizes must be NODEHEADER_SIZE + ITEM_SIZE * block_size for both node kinds")
+    # full node sizes, compared in normal form (hoisted temporaries, expression-bodied helpers and operand order do not matter)
+    full = {}
+    for n in walk_no_nested_fn(wt.body):
+        if n.k == "let" and n.get("init") is not None and n["pat"].k in ("p_ident", "p_type"):
+            v = _sqo(upn(wt, n["init"]))
+            for item in ("NON_LEAFNODE_SIZE", "LEAFNODE_SIZE"):
+                m_ = re.fullmatch(r"(?:NODEHEADER_SIZE\+%s\*u64::from(.+)|%s\*u64::from(.+)\+NODEHEADER_SIZE|NODEHEADER_SIZE\+u64::from(.+)\*%s|u64::from(.+)\*%s\+NODEHEADER_SIZE)" % (item, item, item, item), v)
+                if m_ and (item != "LEAFNODE_SIZE" or "NON_LEAFNODE_SIZE" not in v):
+                    full[item] = (up(n["pat"]).split(":")[0].strip(), [g for g in m_.groups() if g][0])
+    def _undecided_or_fail(role, site, msg, needles):
+        txt = " ".join(up(x) for x in walk_with_callees(ctx.ast, wt) if isinstance(x, Node) and x.k in ("let", "expr_stmt"))
+        if all(nd in txt for nd in needles):
+            res.undecided(role, site, msg + " (all ingredients are present; their arrangement is not one the rule recognises)")
+        else:
+            res.fail(role, site, msg)
+    if set(full) != {"NON_LEAFNODE_SIZE", "LEAFNODE_SIZE"} or full["NON_LEAFNODE_SIZE"][1] != full["LEAFNODE_SIZE"][1] or "block_size" not in full["LEAFNODE_SIZE"][1]:
+        _undecided_or_fail("treeOffsets/full-sizes", wt, "full node sizes must be NODEHEADER_SIZE + ITEM_SIZE * block_size for both node kinds",
+                           ["NODEHEADER_SIZE", "NON_LEAFNODE_SIZE", "LEAFNODE_SIZE", "block_size"])
         return
-    nl, lf = f1.group(1), f2.group(1)
-    sel = re.search(r"let (\w+) = if curr_level - 1 > 0 \{%s\} else \{%s\};" % (nl, lf), t)
+    nl, lf = full["NON_LEAFNODE_SIZE"][0], full["LEAFNODE_SIZE"][0]
+    sel = re.search(r"let (\w+) = if (?:curr_level - 1 > 0|0 < curr_level - 1|curr_level > 1|1 < curr_level) \{%s\} else \{%s\};" % (nl, lf), t)
     if not sel:
-        res.fail("treeOffsets/full-select", wt, "children are full-size NON-LEAF nodes iff the children's level (curr_level - 1) is above the leaf level, else full-size leaf nodes")
+        _undecided_or_fail("treeOffsets/full-select", wt, "children are full-size NON-LEAF nodes iff the children's level (curr_level - 1) is above the leaf level, else full-size leaf nodes",
+                           [nl, lf, "curr_level"])
         return
     fs = sel.group(1)
-    if not re.search(r"let (\w+): u64 = childnode_offset \+ idx as u64 \* %s;" % fs, t):
-        res.fail("treeOffsets/child-offset", wt, "child i of a node must be at childnode_offset + i * full_size")
+    if not re.search(r"let (\w+): u64 = (?:childnode_offset \+ idx as u64 \* %s|idx as u64 \* %s \+ childnode_offset|childnode_offset \+ %s \* idx as u64);" % (fs, fs, fs), t):
+        _undecided_or_fail("treeOffsets/child-offset", wt, "child i of a node must be at childnode_offset + i * full_size", ["childnode_offset", fs, "idx"])
         return
-    if not re.search(r"Ok\(children\.len\(\) as u64 \* %s\)" % fs, t):
-        res.fail("treeOffsets/ret-nonleaf", wt, "a written non-leaf node must report children * full_size as the space its children occupy")
+    if not re.search(r"Ok\((?:children\.len\(\) as u64 \* %s|%s \* children\.len\(\) as u64)\)" % (fs, fs), t):
+        _undecided_or_fail("treeOffsets/ret-nonleaf", wt, "a written non-leaf node must report children * full_size as the space its children occupy", ["children.len()", fs])
         return
     rec = re.search(r"if curr_level != dest_level \{let mut (\w+) = 0; match nodes \{.*?for (\w+) in children \{let (\w+) = write_tree\(file,&\2\.children,curr_level - 1,dest_level,childnode_offset \+ \1,%s\)\?; \1 \+= \3;?\}.*?return Ok\(\1\);?\}" % opt, t)
     if not rec:
-        res.fail("treeOffsets/descend", wt, "above the destination level write_tree must descend into every child with the child-offset advanced by what the previous children reported")
+        _undecided_or_fail("treeOffsets/descend", wt, "above the destination level write_tree must descend into every child with the child-offset advanced by what the previous children reported",
+                           ["write_tree(", "curr_level - 1", "childnode_offset"])
         return
     res.ok(wt, "write_tree: full sizes from block_size; child offset = base + i*full(child kind); descends with accumulated offsets")
     wr = ctx.ast.fn(W, "write_rtreeindex")
@@ -69,42 +124,53 @@ def ob_node_counts(ctx, res):
     """C05-N1: the R-tree child counts the format stores in 16 bits are bounded by 65535 where they are produced"""
     from ..astq import calls
     W_ = W
-    # (1) the R-tree: chunk size, full node sizes and the header's blockSize all come from one helper bounded by u16::MAX
-    h = ctx.ast.fn(W_, "rtree_block_size", required=False)
+    # (1) the R-tree: the chunk size, both full node sizes and the header's blockSize are, in normal form (helpers inlined), one and the same
+    #     expression: the block_size option clamped to [2, u16::MAX]
     gi = ctx.ast.fn(W_, "get_rtreeindex")
     wt = ctx.ast.fn(W_, "write_tree")
     wr = ctx.ast.fn(W_, "write_rtreeindex")
-    raw = []
-    for f in (gi, wt, wr):
-        opt = [nm for nm, ty in f.params if "BBIWriteOptions" in ty][0]
-        for n in walk_no_nested_fn(f.body):
-            if n.k == "field" and up(n) == "%s.block_size" % opt:
-                raw.append((f, n))
-    if h is None or raw:
-        site = raw[0][1] if raw else gi
-        res.fail("nodeCounts/rtree-unbounded", site,
-                 "the number of children of an index node is written as a u16 (`len() as u16`) but nodes are cut with the unbounded u32 option block_size: with block_size > 65535 and "
-                 "that many sections the count wraps (65536 one-entry blocks, block_size 65536: every query returns nothing); the block size must be capped at u16::MAX "
-                 "consistently for chunking, node sizes and the header")
+
+    def bs_norm(fn_, e):
+        opt = [nm for nm, ty in fn_.params if "BBIWriteOptions" in ty][0]
+        t_ = _sqo(upn(fn_, e)).replace(opt + ".", "OPT.")
+        return re.sub(r"asusize$|^u64::from", "", t_)
+    uses = {}
+    ch = [c for c in walk_no_nested_fn(gi.body) if c.k == "mcall" and c["method"] == "chunks" and len(c["args"]) == 1]
+    uses["get_rtreeindex (chunk size)"] = sorted({bs_norm(gi, c["args"][0]) for c in ch})
+    fulls = []
+    for n in walk_no_nested_fn(wt.body):
+        if n.k == "let" and n.get("init") is not None:
+            v = _sqo(upn(wt, n["init"]))
+            m_ = re.search(r"u64::from(.+?block_size.+?)(?:\+NODEHEADER_SIZE|\*(?:NON_)?LEAFNODE_SIZE|$)", v)
+            if "NODEHEADER_SIZE" in v and "LEAFNODE_SIZE" in v and m_:
+                opt = [nm for nm, ty in wt.params if "BBIWriteOptions" in ty][0]
+                fulls.append(m_.group(1).replace(opt + ".", "OPT."))
+    uses["write_tree (full node sizes)"] = sorted(set(fulls))
+    hd = [c for c in calls(wr.body, method="write_u32") if "block_size" in _sqo(upn(wr, c["args"][0]))]
+    uses["write_rtreeindex (header blockSize)"] = sorted({bs_norm(wr, c["args"][0]) for c in hd})
+    capped = {"OPT.block_size.clamp2,u16::MAXasu32", "OPT.block_size.max2.minu16::MAXasu32", "OPT.block_size.minu16::MAXasu32.max2", "2.maxOPT.block_size.minu16::MAXasu32"}
+    allv = set(v for vs in uses.values() for v in vs)
+    if any(not vs for vs in uses.values()):
+        res.undecided("nodeCounts/rtree-uses", gi, "could not locate the block size at every use (chunking, full node sizes, header): %s" % uses)
+    elif len(allv) != 1:
+        res.fail("nodeCounts/rtree-uses", gi, "chunking, the full node sizes and the header's blockSize must use one and the same block size; found %s" % uses)
     else:
-        hb = up(h.body).replace(" ", "")
-        opt = [nm for nm, ty in h.params if "BBIWriteOptions" in ty]
-        forms_hi = ("{%s.block_size.min(u16::MAXasu32)}" % opt[0] if opt else "", "{std::cmp::min(%s.block_size,u16::MAXasu32)}" % opt[0] if opt else "", "{%s.block_size.min(65535)}" % opt[0] if opt else "")
-        forms_both = ("{%s.block_size.clamp(2,u16::MAXasu32)}" % opt[0] if opt else "", "{%s.block_size.max(2).min(u16::MAXasu32)}" % opt[0] if opt else "", "{%s.block_size.min(u16::MAXasu32).max(2)}" % opt[0] if opt else "")
-        if opt and hb in forms_hi:
-            res.fail("nodeCounts/rtree-lower-bound", h,
-                     "rtree_block_size has no lower bound: with block_size 1 every level of the index has as many nodes as the one below it, so get_rtreeindex never reaches a single root "
+        v = list(allv)[0]
+        if v in capped:
+            res.ok(gi, "R-tree: chunk size, full node sizes and header blockSize are all `block_size` clamped to [2, 65535]")
+        elif v == "OPT.block_size" or ("max2" not in v and "clamp2" not in v and "min" not in v):
+            res.fail("nodeCounts/rtree-unbounded", gi,
+                     "the number of children of an index node is written as a u16 (`len() as u16`) but nodes are cut with the unbounded u32 option block_size: with block_size > 65535 and "
+                     "that many sections the count wraps (65536 one-entry blocks, block_size 65536: every query returns nothing); the block size must be capped at u16::MAX "
+                     "consistently for chunking, node sizes and the header")
+        elif "clamp2" not in v and "max2" not in v:
+            res.fail("nodeCounts/rtree-lower-bound", gi,
+                     "the block size has no lower bound: with block_size 1 every level of the index has as many nodes as the one below it, so get_rtreeindex never reaches a single root "
                      "(it loops and allocates without bound); with 0, chunks(0) panics")
-        elif not opt or hb not in forms_both:
-            res.fail("nodeCounts/rtree-helper", h, "rtree_block_size must be options.block_size clamped to [2, u16::MAX]; got %s" % up(h.body))
+        elif "u16::MAX" not in v and "65535" not in v:
+            res.fail("nodeCounts/rtree-helper", gi, "the block size must be clamped to [2, u16::MAX]; got %s" % v)
         else:
-            uses = {}
-            for f in (gi, wt, wr):
-                uses[f.name] = len([c for c in walk_no_nested_fn(f.body) if c.k == "call" and up(c["func"]) == "rtree_block_size"])
-            if uses["get_rtreeindex"] < 1 or uses["write_tree"] < 2 or uses["write_rtreeindex"] < 1:
-                res.fail("nodeCounts/rtree-uses", gi, "chunking, both full node sizes and the header must all use the capped block size; uses: %s" % uses)
-            else:
-                res.ok(h, "R-tree: chunk size, full node sizes and header blockSize = block_size clamped to [2, 65535] (uses: %s)" % uses)
+            res.undecided("nodeCounts/rtree-bound-form", gi, "block size expression `%s` is bounded, but not in a form the rule recognises" % v)
     # the counts written: `X.len() as u16` where X is a chunk of the (capped) chunking, in write_tree
     cnt = [c for c in calls(wt.body, method="write_u16")]
     okc = [c for c in cnt if re.fullmatch(r"(sections|children)\.len\(\) as u16", up(strip(c["args"][0])))]
